@@ -151,11 +151,35 @@ def replay_native(module, case, timeout=300):
     rc, o, so, se = run_native(module, ['replay'], case, timeout=timeout)
     return (bool(o and o.get('reproduced')) if o is not None else None), (o if o is not None else dict(error=(so + se)[-600:]))
 
+_PREFETCH = {}
+def prefetch_native(module, args):
+    """start the bounded stand-in now, in the background, so that it runs while the obligations are discharged; run_native() with the same
+    arguments collects it.  Output goes to temporary files (a full pipe would stall the child)."""
+    import tempfile
+    env = dict(os.environ); env['PYTHONPATH'] = REPO + os.pathsep + VERIF; env.setdefault('NUMBA_NUM_THREADS', '4')
+    try:
+        fo = tempfile.TemporaryFile('w+'); fe = tempfile.TemporaryFile('w+')
+        p = subprocess.Popen([NATIVE_PY, '-m', module] + list(args), stdout=fo, stderr=fe, stdin=subprocess.DEVNULL, text=True, env=env, cwd=VERIF)
+        _PREFETCH[(module, tuple(args))] = (p, fo, fe)
+    except Exception:
+        pass
+
+class _Done:
+    def __init__(self, rc, so, se): self.returncode = rc; self.stdout = so; self.stderr = se
+
 def run_native(module, args, input_obj=None, timeout=600):
     """run /verif/<module> under the runtime interpreter (real numpy/numba/estraces, scared from /repo)"""
     env = dict(os.environ); env['PYTHONPATH'] = REPO + os.pathsep + VERIF; env.setdefault('NUMBA_NUM_THREADS', '4')
-    p = subprocess.run([NATIVE_PY, '-m', module] + list(args), input=(json.dumps(input_obj) if input_obj is not None else None),
-                       capture_output=True, text=True, env=env, cwd=VERIF, timeout=timeout)
+    pre = _PREFETCH.pop((module, tuple(args)), None) if input_obj is None else None
+    if pre is not None:
+        pp, fo, fe = pre
+        try: pp.wait(timeout=timeout)
+        except subprocess.TimeoutExpired:
+            pp.kill(); pp.wait(); raise
+        fo.seek(0); fe.seek(0); p = _Done(pp.returncode, fo.read(), fe.read()); fo.close(); fe.close()
+    else:
+        p = subprocess.run([NATIVE_PY, '-m', module] + list(args), input=(json.dumps(input_obj) if input_obj is not None else None),
+                           capture_output=True, text=True, env=env, cwd=VERIF, timeout=timeout)
     out = p.stdout.strip().splitlines()
     last = None
     for line in reversed(out):
